@@ -126,7 +126,10 @@ SIGS: dict[str, tuple[str, list]] = {
 }
 
 # own exception classes for the "raise_own" outcome: exckit + the RuntimeError family
-OWN18 = [*OWN_CLASSES, NotImplementedError, RecursionError]
+# (the concurrent.futures exception classes are excluded: run_in_executor translates them into
+#  their asyncio counterparts by design - a thread raising them is indistinguishable from the
+#  executor future being cancelled / misused)
+OWN18 = [*(c for c in OWN_CLASSES if not c.__module__.startswith("concurrent.futures")), NotImplementedError, RecursionError]
 
 
 def programs(tier: str):
